@@ -29,6 +29,9 @@ CHECKS = {
  "C02": dict(cat="model_checking", design="DESIGN.md section 5 C02",
    technique="TLA+ generator spec Notation.tla (node-table grammar, WF invariants) simulated by TLC + exhaustive reference-topology spec RecGraph.tla; generated module sets compiled by the real compiler; one trace event per constructed type validated by TLC against RustShape.tla (stateful trace spec: reference closure per module set)",
    text="Module sets are drawn by TLC's simulator from the grammar spec (seeded; quick about 800 sets / 1 900 constructed types) and, exhaustively, every reference topology of 2 (thorough: 3) constructed definitions comes from RecGraph.tla. For every SEQUENCE/SET/CHOICE/SEQUENCE OF/SET OF, also anonymous nested ones (the generated item is found by following field types, not names), TLC validates: one field/variant per component in source order, corresponding Rust type, Option iff OPTIONAL, default fn iff DEFAULT (exists, right type), set marking, boxes only on cycle edges, and no by-value containment cycle in the generated items. Sampling for the grammar part, exhaustive for the topology part."),
+ "C10": dict(cat="model_checking", design="DESIGN.md section 5 C10",
+   technique="TLA+ spec Pipeline.tla (one action per pipeline step; invariants NoSilentLoss, WarningLocal, EnvMatchesHeader; termination) model-checked with TLC, deviation models refuted; executions of the real compiler recorded through cfg(rasn_verif) hooks and validated event by event against the spec (Trace_Pipeline.tla)",
+   text="TLC model-checks the pipeline design exhaustively for 2 modules x 2 names x <=2 definitions x kinds x faults (about 82 000 states, liveness included) and refutes the bare-name-map and env-leak deviation models. Every input of that bounded model is made concrete and compiled (6 204 inputs), and Notation module sets with 1..3 injected unsupported definitions are compiled with and without the faults; each compilation's hook events (lexed, insert, validate, group, enter_module, gen) plus its result are validated as a behaviour of Pipeline.tla, NoSilentLoss is evaluated on the replayed state, and bindings of definitions that do not depend on a faulted one are compared with the fault-free run."),
 }
 
 NOT_BUILT = "check not built yet (DESIGN.md section 13 build order)"
